@@ -105,15 +105,25 @@ def case_read(arg):
 
 def run_arl_files(out, tier):
     scale = 'quick' if tier == 'quick' else 'full'
-    r = need_ok(run_tlc('ArlLayout_MC', workers=4, timeout=3000,
-                        env={'PNC_EMIT': '1', 'PNC_SCALE': scale}),
-                'ArlLayout_MC')
-    out.add_tlc('ArlLayout_MC: every record has the record length, record '
-                'count, every field packs within one step without '
-                'wrap-around', r)
-    if r.violated:
-        out.model_violation(r, 'ArlLayout_MC')
-    items = unique([p for p in r.prints if isinstance(p, dict) and 'recs' in p])
+    # two runs side by side: the small grids, and the grids with 1000 or more
+    # cells in one direction (packing a long field takes TLC a while)
+    import concurrent.futures as cf
+    items = []
+    with cf.ThreadPoolExecutor(max_workers=2) as ex:
+        futs = [(fam, ex.submit(run_tlc, 'ArlLayout_MC', workers=4,
+                                timeout=3000,
+                                env={'PNC_EMIT': '1', 'PNC_SCALE': scale,
+                                     'PNC_ARL_FAMILY': fam}))
+                for fam in ('small', 'big')]
+        for fam, fu in futs:
+            r = need_ok(fu.result(), 'ArlLayout_MC ' + fam)
+            out.add_tlc('ArlLayout_MC (%s grids): every record has the record '
+                        'length, record count, every field packs within one '
+                        'step without wrap-around' % fam, r)
+            if r.violated:
+                out.model_violation(r, 'ArlLayout_MC ' + fam)
+            items += unique([p for p in r.prints
+                             if isinstance(p, dict) and 'recs' in p])
     if not items:
         raise Machinery('ArlLayout_MC emitted nothing')
     args = [(700000 + i, it) for i, it in enumerate(items)]
